@@ -11,6 +11,7 @@ pub mod byproducts;
 mod metadata;
 pub use metadata::{LinkMetadata, LinkMetadataBuilder};
 
+use crate::crypto::{HashAlgorithm, HashValue};
 use crate::models::{TargetDescription, VirtualTargetPath};
 
 use self::byproducts::ByProducts;
@@ -20,13 +21,43 @@ use super::step::Command;
 // FIXME, we need to tag a spec
 //const SPEC_VERSION: &str = "0.9-dev";
 
+/// Digests of one artifact, ordered by algorithm so that the wire form of a
+/// link does not depend on hash-map iteration order.
+type SortedTargetDescription = BTreeMap<HashAlgorithm, HashValue>;
+
+fn sorted_artifacts(
+    artifacts: &BTreeMap<VirtualTargetPath, TargetDescription>,
+) -> BTreeMap<VirtualTargetPath, SortedTargetDescription> {
+    artifacts
+        .iter()
+        .map(|(path, digests)| {
+            (
+                path.clone(),
+                digests
+                    .iter()
+                    .map(|(alg, value)| (alg.clone(), value.clone()))
+                    .collect(),
+            )
+        })
+        .collect()
+}
+
+fn unsorted_artifacts(
+    artifacts: BTreeMap<VirtualTargetPath, SortedTargetDescription>,
+) -> BTreeMap<VirtualTargetPath, TargetDescription> {
+    artifacts
+        .into_iter()
+        .map(|(path, digests)| (path, digests.into_iter().collect()))
+        .collect()
+}
+
 #[derive(Debug, Serialize, Deserialize)]
 pub struct Link {
     #[serde(rename = "_type")]
     typ: String,
     name: String,
-    materials: BTreeMap<VirtualTargetPath, TargetDescription>,
-    products: BTreeMap<VirtualTargetPath, TargetDescription>,
+    materials: BTreeMap<VirtualTargetPath, SortedTargetDescription>,
+    products: BTreeMap<VirtualTargetPath, SortedTargetDescription>,
     #[serde(rename = "environment")]
     env: Option<BTreeMap<String, String>>,
     byproducts: ByProducts,
@@ -38,8 +69,8 @@ impl Link {
         Ok(Link {
             typ: String::from("link"),
             name: meta.name.clone(),
-            materials: meta.materials.clone(),
-            products: meta.products.clone(),
+            materials: sorted_artifacts(&meta.materials),
+            products: sorted_artifacts(&meta.products),
             env: meta.env.clone(),
             byproducts: meta.byproducts.clone(),
             command: meta.command.clone(),
@@ -49,8 +80,8 @@ impl Link {
     pub fn try_into(self) -> Result<LinkMetadata> {
         LinkMetadata::new(
             self.name,
-            self.materials,
-            self.products,
+            unsorted_artifacts(self.materials),
+            unsorted_artifacts(self.products),
             self.env,
             self.byproducts,
             self.command,
